@@ -304,6 +304,9 @@ func (ex *Exec) callSyncInfo(st *State, cc *ssa.CallCommon) *syncInfo {
 			if al.Typ == nil {
 				continue
 			}
+			if ex.isOpaque(al.Typ) {
+				continue
+			}
 			m := ex.prog.LookupMethod(al.Typ, cc.Method.Pkg(), cc.Method.Name())
 			if m == nil {
 				continue
